@@ -13,7 +13,8 @@ import random
 from typing import List
 
 from ..common import Ctx, MachineryError
-from ..meshlib import DELTA, apply_settings, base_pos, build_fresh, first_diff, make_op, new_mesh, pos_coords, write_and_parse
+from .. import meshlib
+from ..meshlib import apply_settings, base_pos, build_fresh, first_diff, make_op, new_mesh, pos_coords, write_and_parse
 from ..tlc import run_tlc
 from .grading import cfg_text
 
@@ -38,6 +39,8 @@ def replay_history(ctx: Ctx, rec: dict, nops: int):
     import numpy as np
 
     problems = []
+    # every third history is replayed far from the origin with small moves
+    meshlib.place(meshlib.FAR if rec.get("far") else meshlib.NEAR)
     ops = {o: make_op(o, nops, [base_pos(o, k) for k in range(1, 9)]) for o in range(1, nops + 1)}
     mesh = new_mesh()
     w = 0
@@ -53,7 +56,7 @@ def replay_history(ctx: Ctx, rec: dict, nops: int):
                 mesh.assemble()
             elif name == "move":
                 v = mesh.blocks[call[1] - 1].vertices[call[2] - 1]
-                v.move_to([v.position[i] + DELTA[i] for i in range(3)])
+                v.move_to([v.position[i] + meshlib.delta()[i] for i in range(3)])
             elif name == "backport":
                 mesh.backport()
             elif name == "clear":
@@ -83,7 +86,7 @@ def replay_history(ctx: Ctx, rec: dict, nops: int):
                 # entity positions
                 for o in range(1, nops + 1):
                     want = np.array([pos_coords(p) for p in exp["epos"][o - 1]])
-                    if not np.allclose(ops[o].point_array, want, atol=1e-9):
+                    if not np.allclose(ops[o].point_array, want, rtol=0, atol=1e-9):
                         problems.append((f"entity-positions:after:{ctxt}", f"operation {o} has points differing from the model at write #{w}"))
                         break
                 since = ["write"]
@@ -113,7 +116,8 @@ def run(ctx: Ctx) -> None:
             rng.shuffle(recs)
             recs = recs[:limit]
             ctx.exhaustive = False
-        for rec in recs:
+        for k, rec in enumerate(recs):
+            rec["far"] = k % 3 == 2
             names = {c[0] for c in rec["hist"]}
             nontrivial = bool(names & {"clear", "backport", "delete", "move"}) or [c[0] for c in rec["hist"]].count("write") > 1
             probs = replay_history(ctx, rec, nops)
@@ -121,7 +125,7 @@ def run(ctx: Ctx) -> None:
             if nontrivial:
                 ctx.nontrivial.add(str(rec["hist"]))
             for sig, what in probs:
-                ctx.violation(sig, what, {"nops": nops, "hist": rec["hist"], "writes": rec["writes"]})
+                ctx.violation(sig + (":far-from-origin" if rec["far"] else ""), what, {"nops": nops, "hist": rec["hist"], "writes": rec["writes"], "far": rec["far"]})
             ctx.sample({"nops": nops, "hist": rec["hist"]})
 
 
